@@ -107,7 +107,7 @@ fn async_mc_answer_counter() {
         G_FCNT.v = start;
         G_ANS_BUILT.v = 0;
     }
-    let mut radio = MRadio { calls: 0, fail_at: kani::any(), tx_calls: 0, tx_ok: 0 };
+    let mut radio = MRadio { calls: 0, fail_at: kani::any(), tx_calls: 0, tx_ok: 0, always_rx: false };
     let mut mac = Mac::new(region::Configuration::new(region::Region::EU868), 20, 0);
     let mut rng = NoRng;
     let mut buf = RadioBuffer::<256>::new();
@@ -148,7 +148,7 @@ fn async_send_faults_mc() {
 }
 
 //@h id=async_send_mc props=C06 tier=quick build=dev-eu868-mc cost=200 timeout=1800
-//@bounds as async_send_faults_mc on a fault-free radio (radio faults with the multicast feature: thorough tier; without it: async_send_faults)
+//@bounds as async_send_faults_mc on a fault-free radio whose RX1 window always receives a frame (radio faults and window time-outs with the multicast feature: thorough tier; without it: async_send_faults)
 //@encodes async_device::Device::{send, rx_downlink, rx_listen, handle_mac_response}, From<mac::Response> for SendResponse
 //@assumes as async_send_faults_mc
 #[kani::proof]
@@ -172,7 +172,8 @@ fn send_mc_step(faults: bool) {
         G_RX_CALLS.v = 0;
         G_ANS_BUILT.v = 0;
     }
-    let radio = MRadio { calls: 0, fail_at: if faults { kani::any() } else { usize::MAX }, tx_calls: 0, tx_ok: 0 };
+    // fault-free variant: RX1 always receives something (window time-outs: async_send_faults)
+    let radio = MRadio { calls: 0, fail_at: if faults { kani::any() } else { usize::MAX }, tx_calls: 0, tx_ok: 0, always_rx: !faults };
     let mut dev: Device<MRadio, MTimer, NoRng, 256, 1> =
         Device::new(region::Configuration::new(region::Region::EU868), radio, MTimer, NoRng);
     let payload = [0u8; 4];
